@@ -92,7 +92,8 @@ fn util_fd(b: usize) -> i32 {
 }
 
 fn fixed_model() -> bool {
-    std::env::var("C12_FIXED").map(|v| v == "1").unwrap_or(false)
+    // /repo carries the repair of H14 (fbe02e5): the model of the repaired drop is the one compared.
+    std::env::var("C12_FIXED").map(|v| v == "1").unwrap_or(true)
 }
 
 fn coq_obj(o: &Obj) -> String {
